@@ -27,7 +27,7 @@ func (c05) Rule() string {
 }
 func (c05) Exhaustive(tier string) string {
 	if tier == "thorough" {
-		return "dimension sweeps: VP8 2x16383, VP8L 2x16384, VP8X 2x2^24, JPEG 2x65535 values, each with the other dimension at 5 values; all 15 PNG colour-type/bit-depth pairs x 2 interlace modes"
+		return "dimension sweeps: VP8 2x16383, VP8L 2x16384, JPEG 2x65535 values each with the other dimension at 5 values; VP8X 2x2^24 values with the other dimension at 1 and with stride 97 at 4 more values"
 	}
 	return ""
 }
@@ -41,56 +41,68 @@ var c05others = [4][5]uint32{
 	{1, 256, 257, 32768, 65535},
 }
 
-func c05stride(tier string) int64 {
-	if tier == "thorough" {
-		return 1
+type c05block struct {
+	kind, axis, other int
+	stride, count     int64
+}
+
+var c05blocksCache = map[string][]c05block{}
+
+// c05blocks lists the dimension sweeps of a tier: (format kind, swept axis,
+// index of the value the other dimension is held at, stride). Thorough sweeps
+// the 14-bit and 16-bit fields completely at all five other values, and the
+// 24-bit VP8X fields completely at the first other value and with stride 97 at
+// the remaining four; quick uses strides 97 / 997.
+func c05blocks(tier string) []c05block {
+	if b, ok := c05blocksCache[tier]; ok {
+		return b
 	}
-	return 97
+	var out []c05block
+	for k := 0; k < 4; k++ {
+		for axis := 0; axis < 2; axis++ {
+			for other := 0; other < 5; other++ {
+				st := int64(1)
+				switch {
+				case tier != "thorough" && k == 2:
+					st = 997
+				case tier != "thorough":
+					st = 97
+				case k == 2 && other > 0:
+					st = 97
+				}
+				out = append(out, c05block{k, axis, other, st, (c05sweepMax[k] + st - 1) / st})
+			}
+		}
+	}
+	c05blocksCache[tier] = out
+	return out
 }
 
 func c05sweepRuns(tier string) int64 {
-	st := c05stride(tier)
 	var n int64
-	for k := 0; k < 4; k++ {
-		per := (c05sweepMax[k] + st - 1) / st
-		if tier != "thorough" && k == 2 {
-			per = (c05sweepMax[k]/997 + 1)
-		}
-		n += per * 2 * 5
+	for _, b := range c05blocks(tier) {
+		n += b.count
 	}
 	return n
 }
 
 func (c05) Runs(tier string) int64 {
 	if tier == "thorough" {
-		return c05sweepRuns(tier) + 3000000
+		return c05sweepRuns(tier) + 6000000
 	}
 	return c05sweepRuns(tier) + 150000
 }
 
 func (c05) Prefix(tier string, i int64) []uint64 {
-	st := c05stride(tier)
-	for k := 0; k < 4; k++ {
-		s := st
-		if tier != "thorough" && k == 2 {
-			s = 997
-		}
-		per := (c05sweepMax[k] + s - 1) / s
-		if tier != "thorough" && k == 2 {
-			per = c05sweepMax[k]/997 + 1
-		}
-		block := per * 10
-		if i < block {
-			axis := i / (per * 5)
-			rem := i % (per * 5)
-			other := rem / per
-			v := 1 + (rem%per)*s
-			if v > c05sweepMax[k] {
-				v = c05sweepMax[k]
+	for _, b := range c05blocks(tier) {
+		if i < b.count {
+			v := 1 + i*b.stride
+			if v > c05sweepMax[b.kind] {
+				v = c05sweepMax[b.kind]
 			}
-			return []uint64{0, uint64(k), uint64(axis), uint64(other), uint64(v - 1)}
+			return []uint64{0, uint64(b.kind), uint64(b.axis), uint64(b.other), uint64(v - 1)}
 		}
-		i -= block
+		i -= b.count
 	}
 	return []uint64{1}
 }
